@@ -315,7 +315,7 @@ func nOf(q, t int) func(string) int {
 
 // Required coverage: every operation × direction, object type, key format, standard attribute.
 func required() []string {
-	req := []string{"messages", "deep_messages", "messages_through_used_encoder", "cold_concurrent_encodings", "large.byte-string", "large.long-batch", "cov.ext-after-payload:req", "cov.ext-after-payload:resp", "cov.keyvalue:wrapped", "cov.keyvalue:absent", "cov.attr:custom", "cov.op:unknown",
+	req := []string{"messages", "deep_messages", "large.big-integer", "messages_through_used_encoder", "cold_concurrent_encodings", "large.byte-string", "large.long-batch", "cov.ext-after-payload:req", "cov.ext-after-payload:resp", "cov.keyvalue:wrapped", "cov.keyvalue:absent", "cov.attr:custom", "cov.op:unknown",
 		"cov.credential:0", "cov.credential:1", "cov.credential:2", "negative_bigints", "cov.message-and-async-value", "cov.ext-without-payload:resp"}
 	for _, o := range gen.Ops {
 		req = append(req, "cov.op:"+o.Name+":req", "cov.op:"+o.Name+":resp")
@@ -476,6 +476,21 @@ func LargeCase(c *core.Ctx, r *core.Rand, i int) {
 		m.Header.BatchCount = int32(len(m.BatchItem))
 		msg = &m
 		c.Count("large.long-batch", 1)
+	case 3: // key components far larger than usual (RSA-4096 .. RSA-16384 moduli are 512 .. 2048 bytes)
+		if i%8 == 3 {
+			m := g.Response(nil)
+			n := []int{511, 512, 513, 520, 1024, 2048, 4100}[(i/8)%7]
+			mod := new(big.Int).SetBytes(append([]byte{0xC3}, r.Bytes(n-1)...))
+			m.BatchItem = append(m.BatchItem, kmip.ResponseBatchItem{Operation: kmip.OperationGet, ResultStatus: kmip.ResultStatusSuccess,
+				ResponsePayload: &payloads.GetResponsePayload{ObjectType: kmip.ObjectTypePublicKey, UniqueIdentifier: "k", Object: &kmip.PublicKey{KeyBlock: kmip.KeyBlock{
+					KeyFormatType: kmip.KeyFormatTypeTransparentRSAPublicKey, KeyValue: &kmip.KeyValue{Plain: &kmip.PlainKeyValue{KeyMaterial: kmip.KeyMaterial{
+						TransparentRSAPublicKey: &kmip.TransparentRSAPublicKey{Modulus: *mod, PublicExponent: *big.NewInt(65537)}}}}}}}})
+			m.Header.BatchCount = int32(len(m.BatchItem))
+			msg = &m
+			c.Count("large.big-integer", 1)
+			break
+		}
+		fallthrough
 	default: // long batch of generated response items
 		m := g.Response(nil)
 		for k, n := 0, 40+r.Intn(100); k < n; k++ {
